@@ -327,6 +327,7 @@ def execute(case):
         return (method, exp['net'], exp['nas'], exp['alpha'], exp['beta'], exp['gamma'], o, rep.model.training)
 
     saved_temperature = [None]
+    seen_replaced = [0]
     check_frozen_set('construction')
     check_static('construction', 'after construction')
     cover['abstract_states'].add(repr(abstract_state()))
@@ -394,6 +395,11 @@ def execute(case):
             break
         if obs.get('aborted'):
             bump('fault_abort_forward')
+        if getattr(rep, 'objects_replaced', 0) != seen_replaced[0]:
+            seen_replaced[0] = rep.objects_replaced
+            scan(rep.model)                      # deepcopy / load_state_dict(assign=True): new objects, same model
+            rep.perturb_skip = set(ref.frozen_t)
+            bump('model_objects_replaced')
         check_static(last_control, f'after op {idx} {lab}')
         if k in ('train_step', 'backward_only') and not obs.get('aborted') and not failures:
             check_grads(last_control, f'after op {idx} {lab}')
